@@ -29,9 +29,15 @@ type compWorld struct {
 	jc2   *model2d.JoinedCollider
 	jt2   model2d.JoinedTransform
 	curve model2d.JoinedCurve
+	// mesh hierarchies: an outer shell with several separate cavities (some with an
+	// island inside), 3-D and 2-D; cav3/cav2 are points inside the cavities
+	hier3 []*model3d.MeshHierarchy
+	hier2 []*model2d.MeshHierarchy
+	cav3  []model3d.Coord3D
+	cav2  []model2d.Coord
 }
 
-const numCompOps = 18
+const numCompOps = 22
 
 func genCompWorld(src *choice.Source) *compWorld {
 	w := &compWorld{}
@@ -100,6 +106,25 @@ func genCompWorld(src *choice.Source) *compWorld {
 	for i, n := 0, 1+src.Intn(4); i < n; i++ {
 		w.curve = append(w.curve, model2d.BezierCurve{pt2(), pt2(), pt2(), pt2()})
 	}
+	// hierarchies: a box with 2-4 box-shaped cavities in a row, every other one
+	// holding an island
+	ncav := 2 + src.Intn(3)
+	m3 := model3d.NewMeshRect(model3d.XYZ(-3, -1, -1), model3d.XYZ(3, 1, 1))
+	m2 := model2d.NewMeshRect(model2d.XY(-3, -1), model2d.XY(3, 1))
+	for i := 0; i < ncav; i++ {
+		cx := -2.4 + 4.8*float64(i)/float64(ncav-1)
+		r := 0.2 + 0.15*src.Float()
+		m3.AddMesh(model3d.NewMeshRect(model3d.XYZ(cx-r, -r, -r), model3d.XYZ(cx+r, r, r)))
+		m2.AddMesh(model2d.NewMeshRect(model2d.XY(cx-r, -r), model2d.XY(cx+r, r)))
+		w.cav3 = append(w.cav3, model3d.XYZ(cx+0.8*r, 0.7*r, -0.6*r))
+		w.cav2 = append(w.cav2, model2d.XY(cx+0.8*r, 0.7*r))
+		if i%2 == 1 {
+			m3.AddMesh(model3d.NewMeshRect(model3d.XYZ(cx-r/3, -r/3, -r/3), model3d.XYZ(cx+r/3, r/3, r/3)))
+			m2.AddMesh(model2d.NewMeshRect(model2d.XY(cx-r/3, -r/3), model2d.XY(cx+r/3, r/3)))
+		}
+	}
+	w.hier3 = model3d.MeshToHierarchy(m3)
+	w.hier2 = model2d.MeshToHierarchy(m2)
 	return w
 }
 
@@ -146,8 +171,26 @@ func (w *compWorld) exec(o op) string {
 		return fmt.Sprint(w.int2.Contains(p2)) + c2(w.int2.Min())
 	case 16:
 		return c2(w.jt2.Apply(p2)) + c2(w.jt2.Inverse().Apply(q2))
-	default:
+	case 17:
 		return c2(w.curve.Eval(o.R))
+	case 18: // a point in one of the cavities (or its island), and an arbitrary one
+		c := w.cav3[o.I%len(w.cav3)]
+		if o.J%3 == 0 {
+			c = model3d.XYZ(c.X, 0, 0) // towards the cavity's centre line (inside an island if there is one)
+		}
+		h := w.hier3[0]
+		return fmt.Sprint(h.Contains(c), h.Contains(o.P.Scale(0.4))) + c3(h.Min())
+	case 19:
+		c := w.cav2[o.I%len(w.cav2)]
+		if o.J%3 == 0 {
+			c = model2d.XY(c.X, 0)
+		}
+		h := w.hier2[0]
+		return fmt.Sprint(h.Contains(c), h.Contains(model2d.XY(0.4*o.P.X, 0.4*o.P.Y))) + c2(h.Max())
+	case 20:
+		return fmt.Sprint(w.hier3[0].FullMesh().NumTriangles(), len(w.hier3[0].Children))
+	default:
+		return fmt.Sprint(w.hier2[0].FullMesh().NumSegments(), len(w.hier2[0].Children))
 	}
 }
 
@@ -159,11 +202,12 @@ func runComposites(r *runner, work *choice.Source) (fs []Finding) {
 		for j, n := 0, 2+work.Intn(8); j < n; j++ {
 			o := op{Code: work.Intn(numCompOps)}
 			if work.Chance(1, 3) {
-				o.Code = []int{2, 12, 10, 0, 11}[work.Intn(5)] // the derived-object queries and what they may disturb
+				o.Code = []int{2, 12, 10, 0, 11, 18, 19, 18, 19}[work.Intn(9)] // the derived-object queries and what they may disturb; hierarchies
 			}
 			o.P = model3d.XYZ(-2.5+5*work.Float(), -2.5+5*work.Float(), -2.5+5*work.Float())
 			o.Q = model3d.XYZ(-2.5+5*work.Float(), -2.5+5*work.Float(), -2.5+5*work.Float())
 			o.R = work.Float()
+			o.I, o.J = work.Intn(64), work.Intn(64)
 			plans[i] = append(plans[i], o)
 		}
 	}
